@@ -290,41 +290,26 @@ class IndexedCache:
         if isinstance(cache, CacheDict) and not cache:
             return
         keys = self.keys
-        n_keys = len(keys)
         key = keys[key_idx]
 
-        # Follow the concrete chain as far as it exists without exceptions
-        while key in assignment:
-            next_cache = cache.get(assignment[key])
-            if next_cache is None:
-                # Try wildcard branch at this level
-                wildcard = cache.get(All)
-                if wildcard is not None:
-                    yield from self._yield_result(assignment, wildcard, key_idx, result)
-                else:
-                    self.search_count += 1
-                return
-            cache = next_cache
-            if key_idx + 1 < n_keys:
-                key_idx += 1
-                key = keys[key_idx]
-            else:
-                break
-
-        if key not in assignment:
-            # Prefer wildcard branch if available
+        if key in assignment:
+            # Entries stored under the concrete value and entries stored under the wildcard both match.
+            concrete = cache.get(assignment[key])
             wildcard = cache.get(All)
+            if concrete is None and wildcard is None:
+                self.search_count += 1
+                return
+            if concrete is not None:
+                yield from self._yield_result(assignment, concrete, key_idx, result)
             if wildcard is not None:
-                yield from self._yield_result(assignment, wildcard, key_idx, result)
-            else:
-                # Explore all branches at this level, copying only the minimal delta
-                for cache_key, cache_val in cache.items():
-                    local_result = copy(result)
-                    local_result[key] = cache_key
-                    yield from self._yield_result(assignment, cache_val, key_idx, local_result)
+                yield from self._yield_result(assignment, wildcard, key_idx, copy(result))
         else:
-            # Reached the leaf (value or next dict) specifically specified by assignment
-            yield result, cache
+            # Explore all branches at this level (wildcard included), copying only the minimal delta
+            for cache_key, cache_val in cache.items():
+                local_result = copy(result)
+                if cache_key is not All:
+                    local_result[key] = cache_key
+                yield from self._yield_result(assignment, cache_val, key_idx, local_result)
 
     def clear(self):
         self.cache.clear()
